@@ -22,6 +22,7 @@ import (
 	"runtime/debug"
 	"strings"
 	"sync"
+	"syscall"
 	"time"
 )
 
@@ -37,8 +38,18 @@ type job struct {
 	Patch   []byte // bytes written at Off (nil: none)
 	Check   bool   // when the decode succeeds, check that the result is a valid object (marshals, stable)
 	// frag
-	Buf   int
-	Chunk chunking
+	Buf              int
+	ChName           string
+	ChSize, ChZeroAt int
+	ChHalves, ChEOF  bool
+}
+
+func (j job) chunk() chunking {
+	return chunking{name: j.ChName, size: j.ChSize, halves: j.ChHalves, eofWithData: j.ChEOF, zeroAt: j.ChZeroAt}
+}
+
+func fragJob(x *lc, bs int, ch chunking) job {
+	return job{Seed: x.seed, Entry: x.e.name, Vi: x.vi, Op: "frag", Buf: bs, ChName: ch.name, ChSize: ch.size, ChZeroAt: ch.zeroAt, ChHalves: ch.halves, ChEOF: ch.eofWithData}
 }
 
 type result struct {
@@ -105,7 +116,7 @@ func execJob(j job) (r result) {
 	x := &lc{e: e, vi: j.Vi, o: o, seed: j.Seed}
 	switch j.Op {
 	case "frag":
-		v, out := x.fragRun(j.Buf, j.Chunk)
+		v, out := x.fragRun(j.Buf, j.chunk())
 		fillOutcome(&r, out)
 		r.VKind, r.VMsg = v.kind, v.msg
 	case "decode":
@@ -157,6 +168,16 @@ func (x *lc) validity(d decoder, recv any) (kind, msg string) {
 
 func childMain() {
 	debug.SetMaxStack(32 << 20) // a runaway recursion ends in milliseconds
+	// A mis-framed stream makes decoders allocate whatever a garbage length says. Below the limit that is a
+	// slow page-faulting multi-GiB allocation, above it an immediate "fatal error: out of memory": keep the
+	// limit low so that the outcome is quick either way (the helper itself needs a few dozen MiB).
+	lim := uint64(1536) << 20
+	if v := os.Getenv("C08_CHILD_MEM_MB"); v != "" {
+		var mb uint64
+		fmt.Sscan(v, &mb)
+		lim = mb << 20
+	}
+	_ = syscall.Setrlimit(syscall.RLIMIT_AS, &syscall.Rlimit{Cur: lim, Max: lim})
 	in := bufio.NewReaderSize(os.Stdin, 1<<20)
 	out := bufio.NewWriter(os.Stdout)
 	dec := json.NewDecoder(in)
